@@ -985,3 +985,6 @@ def _run_counter(out, case, stat, rec, feed, full_sub=False):
     out.nontrivial = nontrivial and total >= 2
     out.info = {"increments": total}
     return out
+
+
+RULE = RULE + " " + 'Later additions: subscribers on SimCounter / SimTally; second use - two further periods of equal length with ONE query per period, compared with a fresh tally.'
